@@ -2055,6 +2055,10 @@ class subarray : public const_subarray<T, D, ElementPtr, Layout> {
 		adl_swap_ranges(this->elements().begin(), this->elements().end(), std::move(other).elements().begin());
 	}
 	friend constexpr void swap(subarray&& self, subarray&& other) noexcept(std::is_nothrow_swappable_v<T>) { std::move(self).swap(std::move(other)); }
+	// named views: without these, `using std::swap; swap(v1, v2)` falls back to the generic std::swap, whose temporary is a view of the same elements (data is lost)
+	friend constexpr void swap(subarray& self, subarray& other) noexcept(std::is_nothrow_swappable_v<T>) { std::move(self).swap(std::move(other)); }
+	friend constexpr void swap(subarray& self, subarray&& other) noexcept(std::is_nothrow_swappable_v<T>) { std::move(self).swap(std::move(other)); }
+	friend constexpr void swap(subarray&& self, subarray& other) noexcept(std::is_nothrow_swappable_v<T>) { std::move(self).swap(std::move(other)); }
 
 	// template<class A, typename = std::enable_if_t<!std::is_base_of_v<subarray, std::decay_t<A>>>> friend constexpr void swap(subarray&& self, A&& other) noexcept { std::move(self).swap(std::forward<A>(other)); }
 	// template<class A, typename = std::enable_if_t<!std::is_base_of_v<subarray, std::decay_t<A>>>> friend constexpr void swap(A&& other, subarray&& self) noexcept { std::move(self).swap(std::forward<A>(other)); }
@@ -3304,6 +3308,8 @@ class array_ref : public subarray<T, D, ElementPtr, Layout>
 	using iterator = typename subarray_base::iterator;
 
 	constexpr array_ref() = delete;  // because reference cannot be unbound
+
+	friend void swap(array_ref&, array_ref&) = delete;  // as before (an array_ref is not move constructible): the swap of named views in the base class is not meant to make whole references swappable
 
 	array_ref(iterator, iterator) = delete;
 
